@@ -258,21 +258,24 @@ Record pool := mkPool {
   all : list tx;               (* txLookup *)
   clock : N;                   (* logical time.Now() *)
   chain : list block;          (* what pool.chain.GetBlock can see *)
-  panicked : bool              (* a Go runtime panic would have happened *)
+  panicked : bool;             (* a Go runtime panic would have happened *)
+  gap_seen : bool              (* ghost (no effect on behaviour): demoteUnexecutables has left a pending
+                                  list that holds the account nonce but has a hole further up *)
 }.
 
-Definition set_all (p : pool) v := mkPool (cfg p) (gas_price p) (cur_state p) (pnonces p) (max_gas p) (locals p) (pending p) (queue p) (beats p) v (clock p) (chain p) (panicked p).
-Definition set_pending (p : pool) v := mkPool (cfg p) (gas_price p) (cur_state p) (pnonces p) (max_gas p) (locals p) v (queue p) (beats p) (all p) (clock p) (chain p) (panicked p).
-Definition set_queue (p : pool) v := mkPool (cfg p) (gas_price p) (cur_state p) (pnonces p) (max_gas p) (locals p) (pending p) v (beats p) (all p) (clock p) (chain p) (panicked p).
-Definition set_beats (p : pool) v := mkPool (cfg p) (gas_price p) (cur_state p) (pnonces p) (max_gas p) (locals p) (pending p) (queue p) v (all p) (clock p) (chain p) (panicked p).
-Definition set_pnonces (p : pool) v := mkPool (cfg p) (gas_price p) (cur_state p) v (max_gas p) (locals p) (pending p) (queue p) (beats p) (all p) (clock p) (chain p) (panicked p).
-Definition set_locals (p : pool) v := mkPool (cfg p) (gas_price p) (cur_state p) (pnonces p) (max_gas p) v (pending p) (queue p) (beats p) (all p) (clock p) (chain p) (panicked p).
-Definition set_clock (p : pool) v := mkPool (cfg p) (gas_price p) (cur_state p) (pnonces p) (max_gas p) (locals p) (pending p) (queue p) (beats p) (all p) v (chain p) (panicked p).
-Definition set_gas_price (p : pool) v := mkPool (cfg p) v (cur_state p) (pnonces p) (max_gas p) (locals p) (pending p) (queue p) (beats p) (all p) (clock p) (chain p) (panicked p).
-Definition set_chain (p : pool) v := mkPool (cfg p) (gas_price p) (cur_state p) (pnonces p) (max_gas p) (locals p) (pending p) (queue p) (beats p) (all p) (clock p) v (panicked p).
-Definition set_panicked (p : pool) := mkPool (cfg p) (gas_price p) (cur_state p) (pnonces p) (max_gas p) (locals p) (pending p) (queue p) (beats p) (all p) (clock p) (chain p) true.
+Definition set_all (p : pool) v := mkPool (cfg p) (gas_price p) (cur_state p) (pnonces p) (max_gas p) (locals p) (pending p) (queue p) (beats p) v (clock p) (chain p) (panicked p) (gap_seen p).
+Definition set_pending (p : pool) v := mkPool (cfg p) (gas_price p) (cur_state p) (pnonces p) (max_gas p) (locals p) v (queue p) (beats p) (all p) (clock p) (chain p) (panicked p) (gap_seen p).
+Definition set_queue (p : pool) v := mkPool (cfg p) (gas_price p) (cur_state p) (pnonces p) (max_gas p) (locals p) (pending p) v (beats p) (all p) (clock p) (chain p) (panicked p) (gap_seen p).
+Definition set_beats (p : pool) v := mkPool (cfg p) (gas_price p) (cur_state p) (pnonces p) (max_gas p) (locals p) (pending p) (queue p) v (all p) (clock p) (chain p) (panicked p) (gap_seen p).
+Definition set_pnonces (p : pool) v := mkPool (cfg p) (gas_price p) (cur_state p) v (max_gas p) (locals p) (pending p) (queue p) (beats p) (all p) (clock p) (chain p) (panicked p) (gap_seen p).
+Definition set_locals (p : pool) v := mkPool (cfg p) (gas_price p) (cur_state p) (pnonces p) (max_gas p) v (pending p) (queue p) (beats p) (all p) (clock p) (chain p) (panicked p) (gap_seen p).
+Definition set_clock (p : pool) v := mkPool (cfg p) (gas_price p) (cur_state p) (pnonces p) (max_gas p) (locals p) (pending p) (queue p) (beats p) (all p) v (chain p) (panicked p) (gap_seen p).
+Definition set_gas_price (p : pool) v := mkPool (cfg p) v (cur_state p) (pnonces p) (max_gas p) (locals p) (pending p) (queue p) (beats p) (all p) (clock p) (chain p) (panicked p) (gap_seen p).
+Definition set_chain (p : pool) v := mkPool (cfg p) (gas_price p) (cur_state p) (pnonces p) (max_gas p) (locals p) (pending p) (queue p) (beats p) (all p) (clock p) v (panicked p) (gap_seen p).
+Definition set_panicked (p : pool) := mkPool (cfg p) (gas_price p) (cur_state p) (pnonces p) (max_gas p) (locals p) (pending p) (queue p) (beats p) (all p) (clock p) (chain p) true (gap_seen p).
+Definition set_gap_seen (p : pool) := mkPool (cfg p) (gas_price p) (cur_state p) (pnonces p) (max_gas p) (locals p) (pending p) (queue p) (beats p) (all p) (clock p) (chain p) (panicked p) true.
 Definition set_head_state (p : pool) (s : cstate) (g : N) :=
-  mkPool (cfg p) (gas_price p) s (mkNoncer s []) g (locals p) (pending p) (queue p) (beats p) (all p) (clock p) (chain p) (panicked p).
+  mkPool (cfg p) (gas_price p) s (mkNoncer s []) g (locals p) (pending p) (queue p) (beats p) (all p) (clock p) (chain p) (panicked p) (gap_seen p).
 
 Definition is_local (p : pool) (a : N) : bool := existsb (N.eqb a) (locals p).
 
@@ -358,6 +361,9 @@ Definition promote_tx (p : pool) (addr : N) (t : tx) : bool * pool :=
     let p := set_clock (set_beats p (aset (beats p) addr (clock p))) (clock p + 1) in
     (true, set_pnonces p (nc_set (pnonces p) addr (t_nonce t + 1))).
 
+Definition enqueue_all (p : pool) (l : list tx) : pool :=
+  fold_left (fun p t => snd (enqueue_tx p t)) l p.
+
 (* removeTx *)
 Definition remove_tx (p : pool) (id : N) : pool :=
   match all_get p id with
@@ -377,7 +383,7 @@ Definition remove_tx (p : pool) (id : N) : pool :=
       let p := if l_empty pl'
                then set_beats (set_pending p (adel (pending p) addr)) (adel (beats p) addr)
                else set_pending p (aset (pending p) addr pl') in
-      let p := fold_left (fun p x => snd (enqueue_tx p x)) invalids p in
+      let p := enqueue_all p invalids in
       set_pnonces p (nc_set_if_lower (pnonces p) addr (t_nonce t))
     | None =>
       match aget (queue p) addr with
@@ -451,9 +457,6 @@ Definition order_by (ord : list N) (l : list N) : list N :=
    intermediate pool is the one Go has at that point. *)
 Definition put_q (p : pool) (a : N) (l : txlist) : pool := set_queue p (aset (queue p) a l).
 Definition put_p (p : pool) (a : N) (l : txlist) : pool := set_pending p (aset (pending p) a l).
-Definition enqueue_all (p : pool) (l : list tx) : pool :=
-  fold_left (fun p t => snd (enqueue_tx p t)) l p.
-
 (* promoteExecutables, one account *)
 Definition promote_account (p : pool) (addr : N) : pool :=
   match aget (queue p) addr with
@@ -487,13 +490,17 @@ Definition demote_account (p : pool) (addr : N) : pool :=
       if negb (l_empty l) && (match sm_get (txs l) nonce with None => true | Some _ => false end)
       then l_cap l 0 else ([], l) in
     let p := enqueue_all (put_p p addr l) gapped in
-    (* only with the proposed repair: postpone everything above the first missing nonce *)
-    let '(gapped2, l) :=
-      if gapfix (cfg p) && negb (l_empty l) then
+    (* what lies above the first missing nonce: with the proposed repair it is postponed,
+       without it the ghost flag records that a hole was left *)
+    let '(gapped2, l, seen) :=
+      if negb (l_empty l) then
         let next := nonce + N.of_nat (length (run_from (length (items (txs l))) (items (txs l)) nonce)) in
-        let '(inv, m) := sm_filter (txs l) (fun t => N.ltb next (t_nonce t)) in
-        (inv, mkList (strict l) m (costcap l) (gascap l))
-      else ([], l) in
+        if gapfix (cfg p) then
+          let '(inv, m) := sm_filter (txs l) (fun t => N.ltb next (t_nonce t)) in
+          (inv, mkList (strict l) m (costcap l) (gascap l), false)
+        else ([], l, existsb (fun t => N.ltb next (t_nonce t)) (items (txs l)))
+      else ([], l, false) in
+    let p := if seen then set_gap_seen p else p in
     let p := enqueue_all (put_p p addr l) gapped2 in
     if l_empty l
     then set_beats (set_pending p (adel (pending p) addr)) (adel (beats p) addr)
@@ -736,7 +743,7 @@ Definition pending_view (p : pool) : list (N * list tx) * pool :=
 
 (* NewTxPool *)
 Definition new_pool (c : config) (genesis : block) : pool :=
-  let p := mkPool c (price_limit c) [] (mkNoncer [] []) 0 (cfg_locals c) [] [] [] [] 1 [genesis] false in
+  let p := mkPool c (price_limit c) [] (mkNoncer [] []) 0 (cfg_locals c) [] [] [] [] 1 [genesis] false false in
   reset p None (b_hdr genesis).
 
 (* ---- operations ---------------------------------------------------------- *)
